@@ -143,6 +143,22 @@ else:
     import ascmhl.commands as C
 
     cli = None
+# a command that itself takes longer than the one-second grace period of the update check
+_slow = float(os.environ.get("VERIF_SLOW", "0") or 0)
+if _slow:
+    import ascmhl.commands as _C0
+
+    def _mk(cb):
+        def w(*a, **k):
+            time.sleep(_slow)
+            return cb(*a, **k)
+
+        return w
+
+    for _nm in dir(_C0):
+        _o = getattr(_C0, _nm)
+        if isinstance(_o, click.Command) and _o.callback is not None:
+            _o.callback = _mk(_o.callback)
 try:
     r0 = CliRunner(mix_stderr=False)
 except TypeError:
